@@ -26,7 +26,8 @@ RULE = ('cases = a main .lua file plus a graph of 1-6 packages (chains, diamonds
         'distinct by seed.'
         " A quarter of the default-load-path graphs reach one file under two names (x and x.lua), each with its own use_game_loop choice (two packages, per the README); some graphs use a relative load path containing '..' (?.lua;../libs/?.lua)."
         ' A third of the graphs are first built while the file of one required package is missing (the build must be rejected and write nothing), then the file is put back and the build under test runs in the same process.'
-        ' Some graphs have a package named like a directory that holds other packages (x.lua next to x/).')
+        ' Some graphs have a package named like a directory that holds other packages (x.lua next to x/).'
+        ' A third of the stripped packages call require() on a non-existing file inside a game-loop function (stripped with the function); error cases include the paren-less forms require "x", require [[x]], require{"x"}.')
 ASSUMPTIONS = ['only the documented parenthesised call form require("name"[, {use_game_loop=true}]) is generated',
                'a package is required with the same option everywhere (picotool documents first-encounter-wins otherwise)',
                'only plain `function _draw()`-style definitions count as game-loop definitions; `function _draw.x()`, '
